@@ -37,8 +37,11 @@ def _expr(depth):
   n_val = st.sampled_from([None, 0, 1, 2, 3, 5, 0.0, 0.5, 1.0])
   sel = st.fixed_dictionaries({'op': st.sampled_from(SELECTORS), 'n': n_val, 'repl': st.booleans(),
                                'cluster': st.booleans(), 's': st.integers(0, 999), 'w': st.integers(0, 3)})
-  mut = st.fixed_dictionaries({'op': st.sampled_from(MUTATORS), 's': st.integers(0, 999)})
-  rec = st.fixed_dictionaries({'op': st.sampled_from(RECOMBS), 's': st.integers(0, 999), 'k': st.integers(1, 3)})
+  # `where`: restrict a point-wise recombinator to the first or to the last applicable decision point (the `where` of
+  # a mutator is a predicate over DNA nodes and may legitimately leave nothing to mutate: not generated)
+  wh = st.sampled_from([None, None, None, 'first', 'last'])
+  mut = st.fixed_dictionaries({'op': st.sampled_from(MUTATORS), 's': st.integers(0, 999), 'where': wh})
+  rec = st.fixed_dictionaries({'op': st.sampled_from(RECOMBS), 's': st.integers(0, 999), 'k': st.integers(1, 3), 'where': wh})
   leaf = st.one_of(sel, sel, mut, rec, st.just({'op': 'identity'}))
 
   def ext(c):
@@ -130,6 +133,11 @@ def build_op(e, has_two):
     if op == 'sel.First':
       return S.First(n)
     return S.Last(n)
+  wkw = {}
+  if e.get('where') in ('first', 'last') and op in ('r.Uniform', 'r.Sample', 'r.Average', 'r.WeightedAverage'):
+    wkw['where'] = (lambda xs: xs[:1]) if e['where'] == 'first' else (lambda xs: xs[-1:])
+  elif e.get('where') is not None and e.get('where') not in ('first', 'last'):
+    raise core.InvalidCase(e)
   if op in MUTATORS:
     return ev.mutators.Uniform(seed=s) if op == 'm.Uniform' else ev.mutators.Swap(seed=s)
   if op in RECOMBS:
@@ -138,10 +146,10 @@ def build_op(e, has_two):
     if isinstance(k, bool) or not isinstance(k, int) or k < 1:
       raise core.InvalidCase(e)
     r = {
-        'r.Uniform': lambda: R.Uniform(seed=s),
-        'r.Sample': lambda: R.Sample(weights=lambda xs: [1.0] * len(xs), seed=s),
-        'r.Average': R.Average,
-        'r.WeightedAverage': lambda: R.WeightedAverage(weights=lambda xs: [1.0 + i for i in range(len(xs))]),
+        'r.Uniform': lambda: R.Uniform(seed=s, **wkw),
+        'r.Sample': lambda: R.Sample(weights=lambda xs: [1.0] * len(xs), seed=s, **wkw),
+        'r.Average': lambda: R.Average(**wkw),
+        'r.WeightedAverage': lambda: R.WeightedAverage(weights=lambda xs: [1.0 + i for i in range(len(xs))], **wkw),
         'r.KPoint': lambda: R.KPoint(k, seed=s),
         'r.Segmented': lambda: R.Segmented(lambda xs: [len(xs) // 2] if len(xs) > 1 else []),
         'r.PMX': lambda: R.PartiallyMapped(seed=s),
@@ -320,8 +328,13 @@ def execute(case):
     if isinstance(e, (IndexError, ValueError)) and _can_empty(expr):
       res.label('empty-intermediate-population')
       return res
+    extra = {}
+    if any(x.get('where') for x in _walk(expr) if x['op'] in RECOMBS):
+      extra['where'] = '1'
+    if 'is not found in the dictionary' in str(e):
+      extra['msg'] = 'decision-not-found'
     return res.violate('operator raised %r on valid parents; %s' % (e, what), law='operator-raises',
-                       exc=type(e).__name__, **sig)
+                       exc=type(e).__name__, **extra, **sig)
   # inputs unchanged
   if len(inputs) != len(pop) or any(a is not b for a, b in zip(inputs, pop)):
     return res.violate('the population list passed in was modified (len %d -> %d); %s' % (len(pop), len(inputs), what),
